@@ -13,6 +13,7 @@ func init() {
 		Run: func(c *chk.Ctx, tier string) {
 			c.Clause("C15-D1/D2/D3")
 			ruleWrapCallsOnce(c)
+			ruleHasParamsIsPresence(c)
 			ruleDecodeTargets(c)
 			ruleOmitTagWholeTag(c)
 			ruleUnmarshalParamsErrors(c)
@@ -34,6 +35,8 @@ func init() {
 		Run: func(c *chk.Ctx, tier string) {
 			c.Clause("C16-D1")
 			rulePositional(c)
+			rulePositionalNames(c)
+			ruleArgsMarshal(c)
 			ruleWrapSnapshot(c)
 			c.Clause("C16-D2")
 			ruleExactLength(c)
